@@ -181,8 +181,11 @@ func nativeReplay(P *Program, hs []HarnessRef, pkgDir string, vecs []*Violation,
 	return out, text, nil
 }
 
+var knownOpenIDs []string
+
 func writeVector(path string, v *Violation) {
 	doc := map[string]interface{}{
+		"known_open": knownOpenIDs,
 		"entry":   v.Entry,
 		"params":  v.Params,
 		"values":  v.Values,
@@ -219,6 +222,11 @@ func RunCheck(root, property, tier string, seed int64, jobsN int, only string, v
 		return 2
 	}
 	kfs, kfOpen := loadKnown(root)
+	knownOpenIDs = nil
+	for id := range kfOpen {
+		knownOpenIDs = append(knownOpenIDs, id)
+	}
+	sort.Strings(knownOpenIDs)
 	P, err := LoadProgram(spec.Harness)
 	if err != nil {
 		fmt.Printf("INCONCLUSIVE property=%s reason=%v\n", property, err)
@@ -604,6 +612,9 @@ func RunReplayOne(root, property, file string) int {
 	v := &Violation{Label: doc.Label, Values: doc.Values, Choices: doc.Choices, Params: doc.Params, Entry: doc.Entry}
 	// the same vector inside the interpreter (concrete run)
 	_, kfOpen := loadKnown(root)
+	for id := range kfOpen {
+		knownOpenIDs = append(knownOpenIDs, id)
+	}
 	jr := RunJob(P, JobSpec{Entry: doc.Entry, Pkg: repoMod + "/" + pkgDir, Params: doc.Params, InitPkgs: spec.InitPkgs, Fixed: v, Samples: 1}, kfOpen)
 	fmt.Printf("INTERPRETER: paths=%d ends=%v err=%s incon=%v\n", jr.Paths, jr.PathsByEnd, jr.Err, jr.Incon)
 	for _, vv := range jr.Violations {
